@@ -48,12 +48,15 @@ int main(int argc, char** argv) {
 
   // =========================================================================================== pairs
   ctx.sub("pairs");
-  ctx.bound("pairs.ellipsoids", T ? "all 21 of models/geod_tables.hpp" : "8: wgs84, f=+-0.02, f=+-0.1, b/a in {1/2, 2, 1/16}");
-  ctx.bound("pairs.grid", "lat1, lat2 in {-90,-89.9999,-45,-1/32,0,30,45.5,89.999999,90} x lon2 in {0,1e-12,1,90,179,179.5,179.99,180-1e-9,180,-180,181,360.5}, lon1 = 0 (972 pairs, contains all meridional and polar pairs)");
-  ctx.bound("pairs.astroid", T ? "lat1 in {-0.5,-30,-60,-89}: antipode + (x,y) scaled by f pi cos(beta1): 9x9 grid on [-2.5,0.5]x[-1.5,1.5] + strip x=-1+-xthresh/2, y in {0,+-tol1/2} (348)"
-                               : "lat1 in {-0.5,-30,-60,-89}: 5x5 grid on [-2.5,0.5]x[-1.5,1.5] + strip (124)");
-  ctx.bound("pairs.short", "5 bases (equator, 30N, -45.5/100E, pole-1e-7, -89.9/179.9999E) x 8 bearings x {0,1e-9,1e-6,1e-3,1,1e3} m (240)");
-  ctx.bound("pairs.equatorial", "lon12 in {(1-f)180 + {0,+-1e-9,+-1e-3}, 179.9, 180, 179.5 with lat -0/+0} (8)");
+  ctx.bound("pairs.ellipsoids", geodlat::ellipsoid_text(T));
+  ctx.bound("pairs.grid", T ? "lon1 in {0, 100.1, -179.75} x lat1, lat2 in {-90,-89.9999,-60,-45,-1/16,-1/32,-1e-12,0,1/32,30,45,45.5,75,89.999999,90} x lon2-lon1 in {0,+-1e-12,1/16,1,28,29,90,135,175,179,179.5,179.99,180-1e-9,180,-180,-179.999999,181,-90,360.5} (13500 pairs, contains all meridional and polar pairs)"
+                            : "lat1, lat2 in {-90,-89.9999,-45,-1/32,0,30,45.5,89.999999,90} x lon2 in {0,1e-12,1,90,179,179.5,179.99,180-1e-9,180,-180,181,360.5}, lon1 = 0 (972 pairs, contains all meridional and polar pairs)");
+  ctx.bound("pairs.astroid", T ? "lat1 in {-1e-9,-1/32,-0.5,-10,-30,-45,-60,-75,-89,-89.99}: antipode + (x,y) scaled by f pi cos(beta1): 25x25 grid on [-2.5,0.5]x[-1.5,1.5] + strip x in {-1+-2 xthresh,-1+-xthresh,-1+-xthresh/2,-1,-0.5,-1e-3,0} x y in {0,+-tol1/2,+-tol1,+-2 tol1,+-1e-8} (7150)"
+                               : "lat1 in {-0.5,-30,-60,-89}: 5x5 grid on [-2.5,0.5]x[-1.5,1.5] + strip x=-1+-xthresh/2, y in {0,+-tol1/2} (124)");
+  ctx.bound("pairs.short", T ? "11 bases (equator, 30N, -45.5/100E, pole-1e-7, -89.9/179.9999E, 1/16/-180, -1e-10/179.9999999, 60/359, 89.99/-120, south pole, 45/1e-9) x 16 bearings x {0,1e-9,3e-9,3e-8,1e-7,1e-6,1e-5,1e-3,0.03,1,30,1e3,2e4,3e5} m (2464)"
+                             : "5 bases (equator, 30N, -45.5/100E, pole-1e-7, -89.9/179.9999E) x 8 bearings x {0,1e-9,3e-8,1e-7,1e-6,1e-3,1,1e3} m (320)");
+  ctx.bound("pairs.equatorial", T ? "lon12 in {(1-f)180 + {0,+-1e-12,+-1e-9,+-1e-6,+-1e-3,+-1}, 1e-9, 28.6, 28.7, 90, 135, 179, 179.9, 179.999999, 180, 179.5 with lat -0/+0}; lat = +-{1e-10,1e-3} on one or both sides of the equator x lon12 = (1-f)180 + {0,+-1e-9,1e-3} (45)"
+                                  : "lon12 in {(1-f)180 + {0,+-1e-9,+-1e-3}, 179.9, 180, 179.5 with lat -0/+0} (8)");
   ctx.bound("pairs.config", "{series (|f|<=0.2), exact, exact=true} x {given, swapped, equator-reflected, meridian-reflected, lon1+360, lon1-1080}");
   ctx.note("tolerance = 2 x documented position error of the solver for the flattening (models/geod_tables.hpp); azimuth differences are weighted by |m12| (the displacement they cause at the other end), as the documentation states for the inverse problem");
   ctx.note("symmetry images are compared with the transformed base result within 2 tol; where Geodesic.hpp documents a non-unique shortest geodesic (lat1 = -lat2, or lon12 = +-180) the documented alternative is accepted; lon +- 360k must reproduce the base result bit for bit when lon1 + 360k is exactly representable");
@@ -207,7 +210,7 @@ int main(int argc, char** argv) {
 
   // =========================================================================================== metric
   ctx.sub("metric");
-  ctx.bound("metric.points", T ? "9 grid latitudes x lon {0,1,90,179,179.99,181} + 2 x 9 antipodal neighbours + 8 points 1 m around (30,0) + 2 equatorial conjugate points + 2 coincident aliases (92 points)"
+  ctx.bound("metric.points", T ? "9 grid latitudes x lon {0,1,90,179,179.99,181} + 4 x 9 antipodal neighbours + 8 points 1 m around (30,0) + 8 points 1 mm around (-89.9999,0) + 2 equatorial conjugate points + 2 coincident aliases + 4 latitudes x lon {0,45,135,180,-90,-179.5} + both poles twice (146 points)"
                                : "every second point of the thorough set + 1 coincident alias (47 points)");
   ctx.bound("metric.space", "all ordered pairs (distance matrix) and ALL ordered triples per ellipsoid and solver");
   uint64_t ntrip = 0;
